@@ -223,7 +223,8 @@ def run_check(tier, seed, replay=None):
         "exhaustive_part": "every context poll of every explored step as first cancelled poll; every engine call x {invalid, error}",
         "known_findings_seen": dict(known),
     }
-    lib.write_evidence(PID, tier, seed, cov, lib.elapsed() - t0, violations=len(violations),
+    if not replay:   # a replay must not replace the evidence of a tier run
+        lib.write_evidence(PID, tier, seed, cov, lib.elapsed() - t0, violations=len(violations),
                        assumptions=["TLC, SANY, CommunityModules Json", "harness/chain block production",
                                     "harness/cmd/faults counting context (sticky cancellation) and recording engine",
                                     "crypto/sha256 as the SHA-256 oracle for versioned hashes"])
